@@ -4,6 +4,13 @@ in this process; the same operations are re-executed (a) in a fresh interpreter 
 fresh objects and reversed order, (b) a sample each alone in its own interpreter.  Any difference is a
 history / process dependence.  Also: caller arrays and code matrices are never modified, the recovery does not
 depend on the `error` context.
+Direct DecoderFTP.decode_ftp calls (both FTP decoders, time_steps 1..4, sizes up to 5x5 / 4x4; c06_worker.ftp_arrays):
+the caller's 2-d syndrome array (own array, view into a batch, column-major, read-only), the context arrays (error,
+step_errors, step_measurement_errors) and the code matrices are snapshotted before the call and compared bit for bit
+afterwards (caller-array-modified); the very same array objects are then decoded again and must give the same result
+(redecode-differs); the recovery must reproduce the XOR over time of the supplied syndrome; the result must not depend
+on the error context.  These calls are part of the interleaved history (compared with a fresh interpreter) and of the
+prior-family x target matrix (as priors and as targets).
 Stopping limits (harness/c06_limits.py): one reference run observed run by run; the extracted run loop folded over its
 per-run data decides the aggregate for every KIND of limit pair (max_failures alone, max_runs alone, both, looser,
 tighter, neither); the implementation with the same seed must agree, generate the same error stream, and return
@@ -80,7 +87,8 @@ def run(ctx):
     warnings.simplefilter('ignore')
     rng = ctx.rng
     ctx.rule = ('one interleaved history of decode/run operations over shared code, decoder and error-model objects '
-                '(reuse vs fresh construction, equal codes, other sizes/families, p = 1 vs 1.0, runs between decodes); '
+                '(reuse vs fresh construction, equal codes, other sizes/families, p = 1 vs 1.0, runs between decodes, direct '
+                'decode_ftp calls with 1-4 time steps whose caller-held arrays are compared before/after and decoded twice); '
                 'every operation re-executed in a fresh interpreter (other PYTHONHASHSEED, fresh objects, reversed '
                 'order) and a sample alone in their own interpreters. nontrivial = operation whose code/decoder/'
                 'error-model expression was already used earlier in the history (cache hit on shared state). '
@@ -108,7 +116,13 @@ def run(ctx):
 
     nops = ctx.pick(420, 4000)
     ops = []
+    nftp = ctx.pick(120, 1200)                 # direct decode_ftp calls, interleaved with everything else
+    ftp_at = set(rng.sample(range(nops + nftp), nftp))
+    nops += nftp
     for i in range(nops):
+        if i in ftp_at:
+            ops.append(X.ftp_decode_op(rng, ns))
+            continue
         if rng.random() < 0.12:
             codes, decs, ems = rng.choice(FTP)
             ops.append({'op': 'run', 'code': rng.choice(codes), 'dec': rng.choice(decs), 'em': rng.choice(ems),
@@ -156,8 +170,12 @@ def run(ctx):
         here.append(r)
         if 'grng' in r:
             flagged.append((op, 0, r['grng']))
-        ctx.count(json.dumps(op, sort_keys=True), hit, op['op'] + ('-ftp' if op.get('T') else ''),
+        ctx.count(json.dumps(op, sort_keys=True), hit or (op['op'] == 'decode_ftp' and op['T'] > 1),
+                  op['op'] + ('-ftp' if op.get('T') and op['op'] == 'run' else ''),
                   dict(op, result=r['result'][:60]) if len(ctx.samples) < 5 else None)
+        if op['op'] == 'decode_ftp':
+            X.report_ftp(ctx, op, r, 'shared objects, in history')
+            continue
         if r['mutated']:
             ctx.violation('mutates-' + '-'.join(r['mutated']), 'a call modified the caller\'s arrays or the code matrices',
                           {'op': op, 'mutated': r['mutated']})
@@ -222,6 +240,15 @@ def run(ctx):
             ctx.violation('context-dependence', 'recovery depends on the error passed as context',
                           {'op': base, 'without': r1['result'], 'with_other_error': r2['result']})
 
+    # ---- direct decode_ftp: the result does not depend on the true errors passed as context (error, step_errors) ----
+    for op in [o for o in ops if o['op'] == 'decode_ftp' and o['ctx'] == 'full'][:ctx.pick(40, 300)]:
+        base = dict(op, gseed=rng.randrange(2 ** 32))
+        r1, r2 = W.execute(base, get), W.execute(dict(base, ctx='meas'), get)
+        ctx.count(('ctx-ftp', json.dumps(op, sort_keys=True)), True, 'context-independence-ftp')
+        if r1['result'] != r2['result']:
+            ctx.violation('context-dependence', 'decode_ftp result depends on the true errors passed as context (error, step_errors)',
+                          {'op': op, 'with_error_context': r1['result'][:300], 'without': r2['result'][:300]})
+
     # ---- stopping limits: one observed reference run, every kind of limit pair decided by the extracted run loop ----
     t0 = time.time()
     L.limits_block(ctx, get, nconf=ctx.pick(40, 240), M=ctx.pick(10, 16))
@@ -242,6 +269,13 @@ def replay(path):
         import logging
         logging.getLogger('qecsim').setLevel(logging.ERROR)
         return L.replay(rp)
+    if isinstance(rp, dict) and isinstance(rp.get('op'), dict) and rp['op'].get('op') == 'decode_ftp' and 'gseeds' not in rp:
+        # the direct call alone in a fresh interpreter: arrays before/after, the same arrays decoded again
+        r = worker([rp['op']], hashseed=5)[0]
+        print('result            :', r['result'][:400])
+        print('arrays modified   :', r['mutated'], json.dumps(r.get('mutated_detail')))
+        print('same arrays again :', r.get('redecode', 'same result')[:400])
+        return 1 if (r['mutated'] or 'redecode' in r or r['result'].startswith('ERR') or '!syndrome' in r['result']) else 0
     if isinstance(rp, dict) and 'gseeds' in rp and ('target' in rp or 'op' in rp):
         # re-execute the operation alone, first thing in pristine forks, once per state of the global generators
         t = rp.get('target') or rp['op']
